@@ -4,8 +4,11 @@ enum: every pair of ordered sub-lists of a small universe of real algorithm name
 driven through the anchored functions (`_send_kex_init` on un-started transports, the peer's
 KEXINIT fed to `_parse_kex_init`); a raw KEXINIT built by the harness plays the peer where unknown
 names, per-direction lists or marker pseudo-algorithms are needed.  Judge: vmc/refs/negotiate.py
-applied to the two KEXINIT payloads that were actually put on the wire.  A subset is re-run as
-full handshakes of two live transports under the scheduler.
+applied to the two KEXINIT payloads that were actually put on the wire - and, configuration-route
+dimension, to the lists as they were configured (SecurityOptions / disabled_algorithms / both):
+a side that advertises another list than the configured one must not thereby change the agreement.
+Per-direction dimension: the raw peer's two directions of a category vary independently.  A subset
+is re-run as full handshakes of two live transports under the scheduler.
 """
 import itertools
 
@@ -31,7 +34,15 @@ META = {
             "Moduli-pack dimension: the server has no modulus pack (paramiko's default until "
             "load_server_moduli succeeds) x every pair of ordered sub-lists of {gex-sha256, curve25519, "
             "gex-sha1} (thorough: + group14-sha256) as kex preferences, judged on the KEXINITs really "
-            "sent, plus 16 live handshakes (kex lists over {gex-sha256, curve25519}).",
+            "sent, plus 16 live handshakes (kex lists over {gex-sha256, curve25519}). "
+            "Configuration-route dimension: the same effective list is configured through SecurityOptions "
+            "alone, through disabled_algorithms alone, through a SecurityOptions permutation of the universe "
+            "cut down by disabled_algorithms, and through a SecurityOptions sub-list combined with "
+            "disabled_algorithms entries that name only algorithms outside that list; whatever route, "
+            "the agreement must be the one the reference computes from the *configured* lists (not only "
+            "from the lists found on the wire). Per-direction dimension: the raw peer's client-to-server "
+            "and server-to-client lists range independently over every pair of ordered sub-lists (same "
+            "names in another order, subsets, disjoint) for ciphers, MACs and compression, each role.",
     "note": "un-started Transport objects driven single-threaded through _send_kex_init/_parse_kex_init; "
             "live subset runs two real transports under the cooperative scheduler; universes are "
             "3-4 names per category, not the full algorithm tables",
@@ -63,6 +74,15 @@ DEFAULTS = {
 }
 
 
+# configuration-route dimension: stock names outside the universes, disabled in addition to the
+# universe names that are not in the configured list (method 'opts_dis')
+OUTSIDE = {"kex": ["diffie-hellman-group16-sha512"], "keys": ["ecdsa-sha2-nistp384"],
+           "ciphers": ["aes192-ctr"], "macs": ["hmac-sha2-512"], "compression": []}
+KEY_ALGS = {"ed25519": ("ssh-ed25519",), "ecdsa-256": ("ecdsa-sha2-nistp256",),
+            "rsa": ("ssh-rsa", "rsa-sha2-256", "rsa-sha2-512")}
+GEX_PREFIX = "diffie-hellman-group-exchange-sha"
+SIBLING = {"cipher_c2s": "cipher_s2c", "mac_c2s": "mac_s2c", "comp_c2s": "comp_s2c"}
+
 NOPACK_TAG = ":server-without-moduli-pack"
 # kex universe of the moduli-pack dimension: group-exchange names around one other method
 NOPACK_KEX = ["diffie-hellman-group-exchange-sha256", "curve25519-sha256@libssh.org",
@@ -83,7 +103,9 @@ def make_transport(role, cfg, method, keyset=("ed25519", "ecdsa-256", "rsa"), st
                    moduli=True):
     """cfg: dict config-cat -> ordered list.  method: 'opts' (SecurityOptions only) |
     'mixed' (SecurityOptions holds a permutation of the whole universe, disabled_algorithms removes
-    the rest) | 'disabled' (class defaults + disabled_algorithms; only for lists in default order)."""
+    the rest) | 'disabled' (class defaults + disabled_algorithms; only for lists in default order) |
+    'opts_dis' (SecurityOptions holds exactly the list; disabled_algorithms names the rest of the
+    universe and a stock name outside it - disabling what is not in the list must change nothing)."""
     a, b = vsocket.pair("x", "y")
     disabled = {}
     if method == "disabled":
@@ -92,12 +114,15 @@ def make_transport(role, cfg, method, keyset=("ed25519", "ecdsa-256", "rsa"), st
     elif method == "mixed":
         for cat, lst in cfg.items():
             disabled[cat] = [n for n in UNIVERSE[cat] if n not in lst]
+    elif method == "opts_dis":
+        for cat, lst in cfg.items():
+            disabled[cat] = [n for n in UNIVERSE[cat] + OUTSIDE[cat] if n not in lst]
     t = Transport(a, disabled_algorithms=disabled, packetizer_class=F.RecPacketizer,
                   strict_kex=strict)
     t._peer_sock = b
     so = t.get_security_options()
     for cat, lst in cfg.items():
-        if method == "opts":
+        if method in ("opts", "opts_dis"):
             setattr(so, OPT_ATTR[cat], tuple(lst))
         elif method == "mixed":
             rest = [n for n in UNIVERSE[cat] if n not in lst]
@@ -190,6 +215,62 @@ def judge_side(acc, role, err, view, disabled, C, Sv, what, replay, tag=""):
     return ok
 
 
+def configured_lists(role, cfg, wire, keyset=("ed25519", "ecdsa-256", "rsa"), moduli=True):
+    """The lists one side was *configured* to offer: its wire lists with every configured category
+    replaced by the configured effective list (a server offers host-key algorithms only for keys it
+    owns and no group exchange without a modulus pack)."""
+    out = dict(wire)
+    for cat, lst in cfg.items():
+        eff = list(lst)
+        if role == "server" and cat == "keys":
+            have = {a for k in keyset for a in KEY_ALGS[k]}
+            eff = [n for n in eff if n in have]
+        if role == "server" and cat == "kex" and not moduli:
+            eff = [n for n in eff if not n.startswith(GEX_PREFIX)]
+        for w in WIRE_OF[cat]:
+            out[w] = eff
+    return out
+
+
+def _plain(w, lst):
+    """A list without what paramiko adds to every configured list by design: the kex markers and
+    the certificate variants it appends behind the configured host-key algorithms."""
+    if w == "kex":
+        return [n for n in lst if not N.is_marker(n)]
+    if w == "hostkey":
+        return [n for n in lst if not n.endswith("-cert-v01@openssh.com")]
+    return list(lst)
+
+
+def judge_configured(acc, real_roles, C, Sv, Cc, Sc, what, replay, tag=""):
+    """Configuration-route dimension: C/Sv = lists on the wire, Cc/Sc = lists as configured.  Where
+    a real side advertises something else than it was configured to offer, the agreement (already
+    tied to the wire lists by judge_side) must still be the one the configured lists give."""
+    acc.count("configured_vs_advertised_comparisons")
+    dev = []
+    for role, wire, conf in (("client", C, Cc), ("server", Sv, Sc)):
+        if role not in real_roles:
+            continue
+        for w in N.CATEGORIES:
+            if _plain(w, wire.get(w, [])) != _plain(w, conf.get(w, [])):
+                dev.append((role, w, wire.get(w, []), conf.get(w, [])))
+    if not dev:
+        return True
+    acc.count("advertised_list_differs_from_configured")
+    ag_w, _ = N.negotiate(C, Sv)
+    ag_c, _ = N.negotiate(Cc, Sc)
+    ok = True
+    for role, w, wl, cl in dev:
+        if ag_w.get(w) != ag_c.get(w):
+            acc.violation("agreement-does-not-follow-configured-preference:%s:%s" % (role, w) + tag,
+                          {"what": what, "category": w, "side_whose_list_deviates": role,
+                           "configured_list": cl, "advertised_list": wl,
+                           "agreed_per_wire_lists": ag_w.get(w), "agreed_per_configured_lists": ag_c.get(w),
+                           "client_configured": Cc.get(w), "server_configured": Sc.get(w)}, replay)
+            ok = False
+    return ok
+
+
 def nontrivial(acc, C, Sv, wire_cats):
     for w in wire_cats:
         a, b = C.get(w, []), Sv.get(w, [])
@@ -223,6 +304,8 @@ def case_real_real(case, acc):
                 b["kex"], b["hostkey"], b["remote_cipher"], b["local_cipher"], b["remote_mac"],
                 b["local_mac"], b["remote_comp"], b["local_comp"]):
             acc.violation("peers-disagree" + tag, {"what": what, "client": a, "server": b}, replay)
+    judge_configured(acc, ("client", "server"), C, Sv, configured_lists("client", ccfg, C),
+                     configured_lists("server", scfg, Sv, keyset, moduli), what, replay, tag)
     cats = [w for c in ccfg for w in WIRE_OF[c]]
     nontrivial(acc, C, Sv, cats)
     acc.count("real_real_pairs")
@@ -232,8 +315,9 @@ def case_real_real(case, acc):
     return C, Sv
 
 
-def raw_lists(role_of_raw, wire_cat, lst, markers):
-    """KEXINIT lists of the harness-built peer: defaults everywhere except wire_cat."""
+def raw_lists(role_of_raw, wire_cat, lst, markers, other=None):
+    """KEXINIT lists of the harness-built peer: defaults everywhere except wire_cat (and, when
+    `other` is given, the opposite direction of the same category)."""
     base = {
         "kex": list(Transport._preferred_kex),
         "hostkey": ["ssh-ed25519", "ecdsa-sha2-nistp256", "rsa-sha2-512", "rsa-sha2-256", "ssh-rsa"],
@@ -242,6 +326,8 @@ def raw_lists(role_of_raw, wire_cat, lst, markers):
         "comp_c2s": ["none", "zlib", "zlib@openssh.com"], "comp_s2c": ["none", "zlib", "zlib@openssh.com"],
     }
     base[wire_cat] = list(lst)
+    if other is not None:
+        base[SIBLING[wire_cat]] = list(other)
     w = "s" if role_of_raw == "server" else "c"
     other = "c" if w == "s" else "s"
     own = ["ext-info-" + w, "kex-strict-%s-v00@openssh.com" % w]
@@ -266,7 +352,8 @@ def case_raw(case, acc):
     ccat = CONFIG_OF[wire_cat]
     t = make_transport(role, {ccat: local}, case.get("method", "opts"))
     mine = send_kexinit(t)
-    raw = N.build_kexinit(raw_lists("server" if role == "client" else "client", wire_cat, peer, markers),
+    raw = N.build_kexinit(raw_lists("server" if role == "client" else "client", wire_cat, peer, markers,
+                                    case.get("peer_s2c")),
                           cookie=core.filler(16, 5))
     err = feed_kexinit(t, raw)
     acc.ev()
@@ -275,11 +362,21 @@ def case_raw(case, acc):
     else:
         C, Sv = N.parse_kexinit(raw), N.parse_kexinit(mine)
     what = {"mode": "raw-peer", "real_role": role, "wire_cat": wire_cat, "local": local,
-            "peer": peer, "markers": markers}
-    judge_side(acc, role, err, K.agreement(t), t._verif_disabled, C, Sv, what,
-               {"kind": "raw", "case": case})
+            "peer": peer, "markers": markers, "method": case.get("method", "opts")}
+    replay = {"kind": "raw", "case": case}
+    judge_side(acc, role, err, K.agreement(t), t._verif_disabled, C, Sv, what, replay)
+    if role == "client":
+        judge_configured(acc, (role,), C, Sv, configured_lists(role, {ccat: local}, C), Sv, what, replay)
+    else:
+        judge_configured(acc, (role,), C, Sv, C, configured_lists(role, {ccat: local}, Sv), what, replay)
     nontrivial(acc, C, Sv, [wire_cat])
     acc.count("raw_peer_parses")
+    if "peer_s2c" in case:
+        what["peer_s2c"] = case["peer_s2c"]
+        nontrivial(acc, C, Sv, [SIBLING[wire_cat]])
+        acc.count("per_direction_pair_cases")
+        if peer != case["peer_s2c"] and set(peer) == set(case["peer_s2c"]):
+            acc.count("per_direction_same_names_other_order")
     if markers != "none":
         acc.count("marker_cases")
     if UNKNOWN in peer:
@@ -352,6 +449,8 @@ def case_live(case, acc):
         serr = v["serr"] if v["sview"] is None else None
         judge_side(acc, "client", cerr, v["cview"] or empty, v["dis"][0], C, Sv, what, replay, tag)
         judge_side(acc, "server", serr, v["sview"] or empty, v["dis"][1], C, Sv, what, replay, tag)
+        judge_configured(acc, ("client", "server"), C, Sv, configured_lists("client", ccfg, C),
+                         configured_lists("server", scfg, Sv, case["keys"], moduli), what, replay, tag)
         if not v["authed"]:
             acc.violation("live-handshake-did-not-complete-after-agreement" + tag,
                           {"case": case, "cerr": repr(v["cerr"]), "serr": repr(v["serr"])}, replay)
@@ -371,6 +470,9 @@ def gen_cases(tier):
                     methods = [("opts", "mixed"), ("mixed", "opts")]
                     if in_default_order(cat, lc) and in_default_order(cat, ls):
                         methods.append(("disabled", "disabled"))
+                    # configuration-route dimension: a SecurityOptions list + disabled_algorithms
+                    # entries naming only algorithms outside that list
+                    methods.append(("opts_dis", "opts_dis"))
                     for cm, sm in methods:
                         cases.append({"k": "rr", "ccfg": {cat: lc}, "scfg": {cat: ls}, "cm": cm,
                                       "sm": sm, "keys": ks})
@@ -393,6 +495,21 @@ def gen_cases(tier):
                 for peer in peer_subs:
                     cases.append({"k": "raw", "role": role, "wire_cat": wire_cat, "local": local,
                                   "peer": peer, "markers": "none"})
+    # G. per-direction dimension: the raw peer's c2s and s2c lists of one category range
+    # independently over every pair of ordered sub-lists (a peer may order or cut the two
+    # directions differently; paramiko itself never does) - each direction must be negotiated
+    # from its own pair of lists
+    for wire_cat in sorted(SIBLING):
+        ccat = CONFIG_OF[wire_cat]
+        u = universe(ccat, tier)
+        local_subs = sublists(u[:3])
+        peer_subs = sublists(u[:3]) if tier == "quick" else sublists(u[:3] + [UNKNOWN])
+        for role in ("client", "server"):
+            for local in local_subs:
+                for p1 in peer_subs:
+                    for p2 in peer_subs:
+                        cases.append({"k": "raw", "role": role, "wire_cat": wire_cat, "local": local,
+                                      "peer": p1, "peer_s2c": p2, "markers": "none"})
     # D. markers in the kex list of the raw peer
     u = universe("kex", tier)[:3]
     for role in ("client", "server"):
@@ -460,7 +577,14 @@ def main(tier):
         ["3-name (quick) / 4-name (thorough) universes per category; other categories at defaults",
          "peer of the raw cases is a harness-built KEXINIT; seqno 0 is supplied by the harness",
          "paramiko configures cipher/MAC/compression per transport, not per direction: per-direction "
-         "asymmetry is exercised through the raw peer only",
+         "asymmetry is exercised through the raw peer only (per-direction dimension: every pair of "
+         "ordered sub-lists of 3 names for the two directions of one category, the other categories "
+         "at defaults)",
+         "configuration-route dimension: the configured effective list of a category is the harness's "
+         "own statement of what it configured (SecurityOptions order minus disabled_algorithms; a "
+         "server additionally only for keys it owns / without group exchange when it has no pack); "
+         "key agreement-does-not-follow-configured-preference:<side whose advertised list deviates>:"
+         "<wire category>",
          "servers have a modulus pack (fixtures/moduli) except in the moduli-pack dimension, where the "
          "first KEXINIT of a pack-less server is judged (keys end in :server-without-moduli-pack)"])
     cases, live = gen_cases(tier)
